@@ -55,19 +55,37 @@ def pairs : List Row → Option (List (Row × Row))
 
 /-! ## spot size -/
 
-def parseDec (s : String) : Option Rat :=
-  match s.splitOn "." with
-  | [a] => a.toNat?.map (fun n => (n : Rat))
-  | [a, b] => do
-    let n ← a.toNat?
-    let m ← b.toNat?
+/-- value of a non-empty string of decimal digits -/
+def digitsVal (cs : List Char) : Option Nat :=
+  if cs.isEmpty then none
+  else if cs.all Char.isDigit then some (cs.foldl (fun n c => 10 * n + (c.toNat - '0'.toNat)) 0)
+  else none
+
+/-- `float(x)` for the decimal notations that occur in the log: `"40"`, `"1.1"` -/
+def parseDecL (cs : List Char) : Option Rat :=
+  match cs.dropWhile (· != '.') with
+  | [] => (digitsVal cs).map (fun n => (n : Rat))
+  | _ :: b => do
+    let n ← digitsVal (cs.takeWhile (· != '.'))
+    let m ← digitsVal b
     pure ((n : Rat) + (m : Rat) / ((10 ^ b.length : Nat) : Rat))
-  | _ => none
+
+def parseDec (s : String) : Option Rat := parseDecL s.toList
+
+/-- `x.split(" x ")` on characters -/
+def splitX : List Char → List (List Char)
+  | [] => [[]]
+  | ' ' :: 'x' :: ' ' :: rest => [] :: splitX rest
+  | c :: rest =>
+    match splitX rest with
+    | [] => [[c]]
+    | p :: ps => (c :: p) :: ps
 
 /-- `"a x b"` (square / rectangular) or `"a"` (circular, IVA style) -/
 def spotSize (s : String) : Option (List Rat) :=
-  if s.contains 'x' then (s.splitOn " x ").mapM parseDec
-  else (parseDec s).map (fun v => [v, v])
+  let cs := s.toList
+  if cs.contains 'x' then (splitX cs).mapM parseDecL
+  else (parseDecL cs).map (fun v => [v, v])
 
 /-! ## stage coordinate → pixel index -/
 
@@ -280,17 +298,23 @@ structure Acq where
   deriving Repr
 
 /-- four-decimal fixed point → shortest decimal string ("40", "1.1", "12.5", "0.0001") -/
-def fmtDec (u : Nat) : String :=
+def fmtDecL (u : Nat) : List Char :=
   let ip := u / 10000
   let fp := u % 10000
-  if fp = 0 then toString ip
+  if fp = 0 then Nat.toDigits 10 ip
   else
-    let digits := (toString (10000 + fp)).toList.drop 1   -- four digits with leading zeros
+    -- four digits with leading zeros, trailing zeros removed
+    let digits := [Nat.digitChar (fp / 1000), Nat.digitChar (fp / 100 % 10), Nat.digitChar (fp / 10 % 10),
+      Nat.digitChar (fp % 10)]
     let trimmed := (digits.reverse.dropWhile (· == '0')).reverse
-    toString ip ++ "." ++ String.ofList trimmed
+    Nat.toDigits 10 ip ++ '.' :: trimmed
 
-def Pattern.spotStr (p : Pattern) : String :=
-  if p.circular then fmtDec p.sxu else fmtDec p.sxu ++ " x " ++ fmtDec p.syu
+def fmtDec (u : Nat) : String := String.ofList (fmtDecL u)
+
+def Pattern.spotL (p : Pattern) : List Char :=
+  if p.circular then fmtDecL p.sxu else fmtDecL p.sxu ++ [' ', 'x', ' '] ++ fmtDecL p.syu
+
+def Pattern.spotStr (p : Pattern) : String := String.ofList p.spotL
 
 def Pattern.lineDir (p : Pattern) (i : Nat) : Dir :=
   if p.serp && i % 2 = 1 then p.dir.opposite else p.dir
@@ -483,6 +507,21 @@ def truthCells (a : Acq) (sel : Option (List Int)) : List (Int × Int × Nat) :=
       | none => none
       | some (s, x, y) =>
         if isSelected sel s then some ((y - o.2) / (p0.syu : Int), (x - o.1) / (p0.sxu : Int), ks.1) else none)
+
+/-- the patterns that are imported, as laid-out records -/
+def selRecs (a : Acq) (sel : Option (List Int)) : List PatRec :=
+  a.recs.filter (fun b => isSelected sel b.p.seq)
+
+/-- the lines that are imported, in the order of recording -/
+def selLines (a : Acq) (sel : Option (List Int)) : List LineRec := (selRecs a sel).flatMap (·.lines)
+
+/-- `On`/`Off` rows of a line as they appear after selection (labelled with the pattern's number) -/
+def LineRec.pair (l : LineRec) : Row × Row := (setSeq l.onRow l.p.seq, setSeq l.offRow l.p.seq)
+
+/-- ground-truth pixel (row, column) of travel step `j` of a line, `p0` the first selected pattern -/
+def truthPixel (a : Acq) (sel : Option (List Int)) (p0 : Pattern) (l : LineRec) (j : Nat) : Int × Int :=
+  (((l.p.stepCell l.i j).2 - (truthOrigin a sel).2) / (p0.syu : Int),
+   ((l.p.stepCell l.i j).1 - (truthOrigin a sel).1) / (p0.sxu : Int))
 
 /-- the lines with the index (in the acquisition's sample list) of the sample of their first pixel:
 prefix sums of the gap and pixel sample counts -/
